@@ -278,7 +278,7 @@ pub mod thread {
 
 pub mod sync {
     use super::*;
-    pub use std::sync::{Arc, LockResult, PoisonError, Weak};
+    pub use std::sync::{Arc, LockResult, PoisonError, TryLockError, TryLockResult, Weak};
     pub mod atomic {
         pub use shuttle::sync::atomic::*;
     }
@@ -310,6 +310,17 @@ pub mod sync {
                 Ok(g) => Ok(MutexGuard { guard: Some(g), mutex: self }),
                 Err(p) => Err(PoisonError::new(MutexGuard { guard: Some(p.into_inner()), mutex: self })),
             }
+        }
+        /// as std's: never waits; `WouldBlock` when another task holds the lock
+        pub fn try_lock(&self) -> TryLockResult<MutexGuard<'_, T>> {
+            match self.inner.try_lock() {
+                Ok(g) => Ok(MutexGuard { guard: Some(g), mutex: self }),
+                Err(TryLockError::WouldBlock) => Err(TryLockError::WouldBlock),
+                Err(TryLockError::Poisoned(p)) => Err(TryLockError::Poisoned(PoisonError::new(MutexGuard { guard: Some(p.into_inner()), mutex: self }))),
+            }
+        }
+        pub fn get_mut(&mut self) -> LockResult<&mut T> {
+            self.inner.get_mut()
         }
     }
 
@@ -405,6 +416,27 @@ pub mod sync {
         pub fn wait_timeout<'a, T: ?Sized>(&self, guard: MutexGuard<'a, T>, dur: std::time::Duration) -> LockResult<(MutexGuard<'a, T>, WaitTimeoutResult)> {
             let (g, t) = self.wait_inner(guard, Some(dur));
             Ok((g, WaitTimeoutResult(t)))
+        }
+
+        pub fn wait_while<'a, T: ?Sized, F: FnMut(&mut T) -> bool>(&self, mut guard: MutexGuard<'a, T>, mut condition: F) -> LockResult<MutexGuard<'a, T>> {
+            while condition(&mut *guard) {
+                guard = self.wait_inner(guard, None).0;
+            }
+            Ok(guard)
+        }
+
+        pub fn wait_timeout_while<'a, T: ?Sized, F: FnMut(&mut T) -> bool>(&self, mut guard: MutexGuard<'a, T>, dur: std::time::Duration, mut condition: F) -> LockResult<(MutexGuard<'a, T>, WaitTimeoutResult)> {
+            let start = super::time::Instant::now();
+            loop {
+                if !condition(&mut *guard) {
+                    return Ok((guard, WaitTimeoutResult(false)));
+                }
+                let left = match dur.checked_sub(start.elapsed()) {
+                    Some(l) => l,
+                    None => return Ok((guard, WaitTimeoutResult(true))),
+                };
+                guard = self.wait_inner(guard, Some(left)).0;
+            }
         }
 
         pub fn notify_one(&self) {
